@@ -4,6 +4,7 @@ import Zc.Proofs.LinkBridgeK2
 import Zc.Proofs.LinkBridgeK1
 import Zc.Proofs.LinkBridgeK3
 import Zc.Proofs.LinkBridgeK5
+import Zc.Proofs.LinkBridgeK4
 import Zc.GenFacts.Link
 /-! # C07 — end-to-end discovery converges to the set of registered services
 
@@ -53,7 +54,7 @@ that needs the composed `Host` model of DESIGN §4.7, which this tree does not h
 def C07_convergence (runs : Trace → Int → Prop) : Prop :=
   ∀ (tr : Trace) (endT : Int), runs tr endT → lastChange tr + C07_settle ≤ endT →
     ∀ (tb : Int) (b : Br), (tb, b) ∈ browses tr → neverClosed tr b.host = true →
-      ∀ s : Svc, live tr b s = (registered Cfg.paper tr s && s.ty == b.ty)
+      ∀ s : Link.Svc, live tr b s = (registered Cfg.paper tr s && s.ty == b.ty)
 
 /-- **C07 (partial: the single-host contracts K1–K6 are hypotheses, monitored on every simulated run).**
 Convergence for every trace that satisfies the contracts and the link assumption K7.  Case analysis per (service, browser):
@@ -113,14 +114,14 @@ theorem C07_fresh (tr : Trace) (endT : Int) (hc : C07_Contracts tr endT) (hsettl
 /-- **Removed direction, for every host** (no browser needed; uses only K2, K6, K7): after the settling time no host that
 stays up still holds a PTR of a service that is not registered — no resurrection (D5/D6 are violations of K6). -/
 theorem C07_withdrawn_not_held_partial (tr : Trace) (endT : Int) (hc : C07_Contracts tr endT)
-    (hsettle : lastChange tr + C07_settle ≤ endT) (h : Nat) (hopen : neverClosed tr h = true) (s : Svc)
+    (hsettle : lastChange tr + C07_settle ≤ endT) (h : Nat) (hopen : neverClosed tr h = true) (s : Link.Svc)
     (hreg : registered Cfg.paper tr s = false) : held tr h s = false :=
   not_held_of_unregistered (wf_of hc.wf) hc.k2 hc.k6 hc.k7 hsettle hopen hreg
 
 /-- **Added direction at the cache level**: a registered service is held by every browsing host of its type that stays up -/
 theorem C07_registered_held_partial (tr : Trace) (endT : Int) (hc : C07_Contracts tr endT)
     (hsettle : lastChange tr + C07_settle ≤ endT) (tb : Int) (b : Br) (hb : (tb, b) ∈ browses tr)
-    (hopen : neverClosed tr b.host = true) (s : Svc) (hty : s.ty = b.ty) (hreg : registered Cfg.paper tr s = true) :
+    (hopen : neverClosed tr b.host = true) (s : Link.Svc) (hty : s.ty = b.ty) (hreg : registered Cfg.paper tr s = true) :
     held tr b.host s = true := by
   have hwf := wf_of hc.wf
   obtain ⟨β, t1, hA⟩ := announced_of_registered hwf hc.k1 hc.k2 hc.k7 hsettle hreg
@@ -134,7 +135,7 @@ were in one processed datagram (K5: the cache is filled before the callback).  U
 `C07_Contracts` and monitored as `K6f`, `K5a`.  The harness oracle accepts the port / TXT / host of any version advertised up to the end of
 the lookup (after an `update` caches converge, not instantaneously) and any address set between the service's own and the host name's. -/
 theorem C07_lookup_partial (tr : Trace) (endT : Int) (h7 : K7 Cfg.paper tr endT = true) (h6 : K6full tr = true)
-    (h5 : K5added tr = true) (t : Int) (b : Br) (s : Svc) (ha : (⟨t, .added b s⟩ : TEv) ∈ tr) :
+    (h5 : K5added tr = true) (t : Int) (b : Br) (s : Link.Svc) (ha : (⟨t, .added b s⟩ : TEv) ∈ tr) :
     ∃ e ∈ dlvs tr, e.h = b.host ∧ e.t ≤ t ∧ posFull s e.items = true :=
   added_complete h7 h6 h5 ha
 
@@ -150,7 +151,7 @@ theorem C07_convergence_gen (tr : Trace) (endT : Int)
       ∧ K4 Cfg.gen tr endT = true ∧ K5 Cfg.gen tr endT = true ∧ K6 Cfg.gen tr = true ∧ K7 Cfg.gen tr endT = true
       ∧ K3b Cfg.gen tr endT = true)
     (hsettle : lastChange tr + C07_settle ≤ endT) (tb : Int) (b : Br) (hb : (tb, b) ∈ browses tr)
-    (hopen : neverClosed tr b.host = true) (s : Svc) :
+    (hopen : neverClosed tr b.host = true) (s : Link.Svc) :
     convergedFor Cfg.gen tr b s = true := by
   rw [C07_constants] at hc ⊢
   obtain ⟨h0, h1, h2, h3, h4, h5, h6, h7, h8⟩ := hc
@@ -241,7 +242,7 @@ new 75 % point plus two late passes — 30 s after the 85 % point, K3b's window 
 inside the browser's start-up phase (C10 names this case as not covered); (iii) for a kept schedule the type asked is the name
 stored when the alias was first scheduled — "one alias, one type" is not an invariant of the scheduler model; (iv) a browser
 started after the 75 % point (K3b's other branch) reduces to K3's third and fourth windows plus C13's staleness rule. -/
-theorem C07_K3b_from_C10_partial (tr : Trace) (b : Br) (s : Svc) (types : List String) (tS : Int)
+theorem C07_K3b_from_C10_partial (tr : Trace) (b : Br) (s : Link.Svc) (types : List String) (tS : Int)
     (pre0 : List (Int × Sched.Op)) (tb : Int) (d : Nat) (pre : List (Int × Sched.Op)) (t : Int) (a n : String) (ttl : Nat)
     (evsA : List (Int × Sched.Op)) (tn : Int) (opn : Sched.Op) (rest : List (Int × Sched.Op)) (s' : Sched2.S2)
     (outs : List Sched.Send)
@@ -290,11 +291,30 @@ example :
     ∧ Bridge.scan id p [.datagram 1000 [p], .purge 1126000] = some (120, 1000, true)
     ∧ Bridge.scan id p [.datagram 1000 [p], .datagram 3000 [{ p with ttl := 0 }]] = some (0, 3000, false) := by decide
 
-/-- the contracts that are still hypotheses once K1, K2, K6 (C08/C09 host machine), K3 (C10 scheduler) and K5 (C04 browser over
-the C05/C06 cache) are discharged -/
+/-- **K4 from C03 + C11 + C12** (partial: histories without truncated queries; liveness as in C12 — an accepted history, i.e. one that
+satisfies the event-loop facts `Reply.LoopAx`, that goes beyond the window).  If every host's responder, as the link trace shows it,
+is the projection of an accepted history of the C11/C12 reply model `Zc.Reply.Host` extended with the D5 purge of the outgoing queues
+(`Bridge.KRun`: `async_unregister_service` strikes the withdrawn records from both queues — a block the reply model does not have,
+without which a real run with an unregister is not a run of the model), and the candidates of every query are what C03's
+`strategiesFor` / `Strategy.answer` yield on a state of C03's registry model (`Bridge.FromRegistry`), then K4's monitor holds on the
+trace.  Proved, not assumed: the duplicate guard (a datagram it drops follows a *processed* datagram with the same bytes and no QU
+question less than a second earlier, whose answer — a multicast — lies in `[a − 1000, a + 1200]`: `KRun.dup_source`); C03's
+completeness for a pointer question and that the pointer travels with SRV, TXT and an address (`pointer_offered`,
+`strategy_ptrFull`, every registered service having an address); C11's routing (`query_routes`: multicast, or unicast to the asker
+of a QU question from port 5353); C12's windows with liveness (`KRun.fresh_answered`: at once, by `a + 500` from the aggregation
+queue, by `a + 1200` from the protected queue — the history going beyond `a + 1200` forces the timer blocks); that the purges of
+other services' records spare the answer (`KRun.live`).  The projection glue that remains is `Bridge.ResponderRun`, clause by
+clause (see `Proofs/LinkBridgeK4.lean`): `rx`, `isQuery`, `query` + `item`, `outs`, `purge`, `NoTC`, `PurgeKeeps`, `covers`.
+**Not covered**: queries spread over several datagrams (TC bit) — the link item `query ty known qu` describes one packet, and the
+held query is answered up to 500 ms later, outside K4's window. -/
+theorem C07_K4_from_C03_C11_C12_partial (lower : String → String) (tr : Trace) (endT : Int)
+    (hR : Bridge.Responders lower tr endT) : K4 Cfg.paper tr endT = true :=
+  Bridge.K4_of_responders lower tr endT hR
+
+/-- the contracts that are still hypotheses once K1, K2, K6 (C08/C09 host machine), K3 (C10 scheduler), K4 (C03 answer computation,
+C11/C12 reply model) and K5 (C04 browser over the C05/C06 cache) are discharged -/
 structure C07_ContractsFromModels (lower : String → String) (tr : Trace) (endT : Int) : Prop where
   wf : WF Cfg.paper tr endT = true
-  k4 : K4 Cfg.paper tr endT = true
   k7 : K7 Cfg.paper tr endT = true
   k3b : K3b Cfg.paper tr endT = true
   /-- instead of K1, K2 and K6: every host's sends and `reg` / `upd` / `unreg` events are those of a disciplined, fair run of the
@@ -306,20 +326,25 @@ structure C07_ContractsFromModels (lower : String → String) (tr : Trace) (endT
   /-- instead of K3: every browser on a never-closed host is a history of C10's scheduler that goes beyond the window, its queries
   on the wire as C13 describes (`Bridge.WireAsk`) -/
   browsers : ∀ x ∈ browses tr, neverClosed tr x.2.host = true → Bridge.BrowserRun tr endT x.1 x.2
+  /-- instead of K4: every host's responder is an accepted history of the C11/C12 reply model with the D5 purge, its candidates
+  computed by C03's answer computation on a state of C03's registry model (`Bridge.ResponderRun`) -/
+  responders : Bridge.Responders lower tr endT
   /-- instead of K5: every browser with the cache of its host is a run of the C04 model over the C05/C06 cache -/
   caches : ∀ x ∈ browses tr, Bridge.CacheRun tr x.1 x.2
 
-/-- **C07 with K1, K2, K3, K5 and K6 discharged** (partial: WF, K3b, K4, K7 remain monitored hypotheses; K5 is a theorem
-about the C04 browser model over the C05/C06 cache; K1, K2 and K6 are
-theorems about the C08/C09 host machine — K1 and K2's liveness half under the event-loop axiom `Fair`, which the block machines
-do not state; K3 is a theorem about C10's scheduler model, C13's question generation entering as the mapping `WireAsk`). -/
+/-- **C07 with K1, K2, K3, K4, K5 and K6 discharged** (partial: WF, K3b, K7 remain monitored hypotheses; K5 is a theorem
+about the C04 browser model over the C05/C06 cache; K1, K2 and K6 are theorems about the C08/C09 host machine — K1 and K2's liveness
+half under the event-loop axiom `Fair`, which the block machines do not state; K3 is a theorem about C10's scheduler model, C13's
+question generation entering as the mapping `WireAsk`; K4 is a theorem about the C11/C12 reply model with the D5 purge, fed by
+C03's answer computation, for histories without truncated queries). -/
 theorem C07_convergence_from_models_partial (lower : String → String) :
     C07_convergence (C07_ContractsFromModels lower) := by
   intro tr endT hc
   have hg := Bridge.Hosts_Generated lower tr endT hc.hosts
   exact C07_convergence_partial tr endT
     ⟨hc.wf, Bridge.K1_of_hosts lower tr endT hc.hosts, Bridge.K2_of_generated lower tr endT hg hc.byeMulticast,
-     Bridge.K3_of_browsers tr endT hc.browsers, hc.k4, Bridge.K5_of_cacheRuns tr endT hc.caches,
+     Bridge.K3_of_browsers tr endT hc.browsers, Bridge.K4_of_responders lower tr endT hc.responders,
+     Bridge.K5_of_cacheRuns tr endT hc.caches,
      Bridge.K6_of_generated lower tr (Bridge.Generated_K6 lower tr endT hg), hc.k7, hc.k3b⟩
 
 /-- non-vacuity of the bridge: C08's example history (register, three announcements, a pointer answer queued in the protected
@@ -374,12 +399,12 @@ Host 0 comes up, registers `s` (announcements at 350/575/800 ms, looped back to 
 at 5 s (goodbyes at 5000/5125/5250), and starts a browser at 1 s which finds `s` in the cache and asks at 1050 (QU), 2050,
 6050 and 15050 ms listing what it knows. -/
 namespace C07ex
-def s : Svc := ⟨0, 0, 0⟩
-def u : Svc := ⟨0, 0, 1⟩
+def s : Link.Svc := ⟨0, 0, 0⟩
+def u : Link.Svc := ⟨0, 0, 1⟩
 def b : Br := ⟨0, 0, 0⟩
-def ann (x : Svc) : List Item := [.ptr x 4500 true]
-def gb (x : Svc) : List Item := [.ptr x 0 false]
-def q (k : List Svc) (qu : Bool) : List Item := [.query 0 k qu]
+def ann (x : Link.Svc) : List Item := [.ptr x 4500 true]
+def gb (x : Link.Svc) : List Item := [.ptr x 0 false]
+def q (k : List Link.Svc) (qu : Bool) : List Item := [.query 0 k qu]
 def tr : Trace :=
   [⟨0, .up 0⟩, ⟨0, .reg s⟩, ⟨10, .reg u⟩,
    ⟨350, .send 0 0 none (ann s)⟩, ⟨350, .dlv 0 0 0 true (ann s)⟩,
@@ -412,10 +437,10 @@ end C07ex
 /-! A second run exercises the query path (K3, K4): host 1 comes up at 2 s, after every announcement of `s`, and starts a
 browser; its first (QU) question is answered by unicast, the later QM questions list `s`. -/
 namespace C07ex2
-def s : Svc := ⟨0, 0, 0⟩
+def s : Link.Svc := ⟨0, 0, 0⟩
 def b : Br := ⟨1, 0, 0⟩
 def ann : List Item := [.ptr s 4500 true]
-def q (k : List Svc) (qu : Bool) : List Item := [.query 0 k qu]
+def q (k : List Link.Svc) (qu : Bool) : List Item := [.query 0 k qu]
 def tr : Trace :=
   [⟨0, .up 0⟩, ⟨0, .reg s⟩,
    ⟨350, .send 0 0 none ann⟩, ⟨350, .dlv 0 0 0 true ann⟩,
@@ -465,10 +490,10 @@ answer to host 1 is the one lost delivery, so the record is still un-refreshed 2
 (and met by that question).  At 85 % (3 825 800 ms) it asks again, the answer arrives at 3 825 950 ms.  The window ends at
 4 600 000 ms — after the original record would have expired (4 500 800 ms): the instance is still reported. -/
 namespace C07ex3
-def s : Svc := ⟨0, 0, 0⟩
+def s : Link.Svc := ⟨0, 0, 0⟩
 def b : Br := ⟨1, 0, 0⟩
 def ann : List Item := [.ptr s 4500 true]
-def q (k : List Svc) (qu : Bool) : List Item := [.query 0 k qu]
+def q (k : List Link.Svc) (qu : Bool) : List Item := [.query 0 k qu]
 def tr : Trace :=
   [⟨0, .up 0⟩, ⟨0, .up 1⟩, ⟨0, .reg s⟩, ⟨100, .browse b⟩,
    ⟨150, .send 1 0 none (q [] true)⟩, ⟨150, .dlv 0 1 1 true (q [] true)⟩, ⟨160, .dlv 0 1 0 true (q [] true)⟩,
